@@ -1,4 +1,4 @@
-// Witness w_limit: substitution limits 1,2,3,(default 4),255 and task capacities 1,2,255 (C04.a, C10).
+// Witness w_limit: substitution limits 1,2,3,(default 4),255 and task capacities 1,2,8,254,255 on three states (C04.a, C10, C18.i).
 #include "w_common.hpp"
 
 #define LIMIT_MACHINE(NS, CONFIG)                                                \
@@ -31,11 +31,13 @@ LIMIT_MACHINE(l255, ffsm2::Config::SubstitutionLimitN<255>)
 LIMIT_MACHINE(t1,   ffsm2::Config::TaskCapacityN<1>)
 LIMIT_MACHINE(t2,   ffsm2::Config::TaskCapacityN<2>)
 LIMIT_MACHINE(t255, ffsm2::Config::TaskCapacityN<255>::ManualActivation)
+LIMIT_MACHINE(t8,   ffsm2::Config::TaskCapacityN<8>)					// more tasks than states (3)
+LIMIT_MACHINE(t254, ffsm2::Config::TaskCapacityN<254>::ManualActivation)	// the largest capacity that is not the "default" sentinel
 #endif
 
 void w_limit_use() {
 	l1::use(); l2::use(); l3::use(); l4::use(); l255::use();
 #ifdef FFSM2_ENABLE_PLANS
-	t1::use(); t2::use();
+	t1::use(); t2::use(); t8::use(); t254::use();
 #endif
 }
